@@ -49,24 +49,25 @@ func kindNames() []string {
 }
 
 type sendCase struct {
-	Attempts int
-	Factor   float64
-	Pattern  []string // per attempt: ok / fail / hang
-	Cancel   string   // never | before-attempt-i | backoff-i | write
-	Write    string   // ok | error
-	Reset    string   // ok | error
-	Kind     string
+	OpenTimeoutHalfUnits int // per-attempt stream-open timeout in half units (20 = 10u; 1 = u/2, shorter than every back-off)
+	Attempts             int
+	Factor               float64
+	Pattern              []string // per attempt: ok / fail / hang
+	Cancel               string   // never | before-attempt-i | backoff-i | write
+	Write                string   // ok | error
+	Reset                string   // ok | error
+	Kind                 string
 }
 
 func (c sendCase) String() string {
-	return fmt.Sprintf("attempts=%d factor=%g pattern=%v cancel=%s write=%s reset=%s kind=%s", c.Attempts, c.Factor, c.Pattern, c.Cancel, c.Write, c.Reset, c.Kind)
+	return fmt.Sprintf("open-timeout=%gu attempts=%d factor=%g pattern=%v cancel=%s write=%s reset=%s kind=%s", float64(c.OpenTimeoutHalfUnits)/2, c.Attempts, c.Factor, c.Pattern, c.Cancel, c.Write, c.Reset, c.Kind)
 }
 
 func c15Send(x *mc.Cell, c sendCase) {
 	x.Executions++
 	pv, stack := mc.Bubble(x.T, func() {
 		h := newRecHost()
-		n := dtnet.NewFromLibp2pHost(h, dtnet.RetryParameters(unit, 4*unit, float64(c.Attempts), c.Factor), dtnet.SendMessageParameters(10*unit, 10*unit))
+		n := dtnet.NewFromLibp2pHost(h, dtnet.RetryParameters(unit, 4*unit, float64(c.Attempts), c.Factor), dtnet.SendMessageParameters(time.Duration(c.OpenTimeoutHalfUnits)*unit/2, 10*unit))
 		ctx, cancel := context.WithCancel(context.Background())
 		defer cancel()
 		done := make(chan struct{})
@@ -159,7 +160,7 @@ func c15Send(x *mc.Cell, c sendCase) {
 		ctxs := fmt.Sprintf("%s\n  opens=%d err=%v cancelledAt=%v returnedAt=%v streams=%d", c, opens, err, cancelAt, returnedAt, len(h.Streams))
 		x.Outcome(fmt.Sprintf("%d|%v|%v", opens, err != nil, cancelled))
 		sig := func(s string) string {
-			return fmt.Sprintf("send;%s;attempts=%d;cancel=%s;write=%s", s, c.Attempts, cancelClass(c.Cancel), c.Write)
+			return fmt.Sprintf("send;%s;attempts=%d;cancel=%s;write=%s;open-timeout-shorter-than-backoff=%v", s, c.Attempts, cancelClass(c.Cancel), c.Write, c.OpenTimeoutHalfUnits < 2)
 		}
 		if opens > c.Attempts {
 			x.Violate("C15", sig(fmt.Sprintf("too-many-open-attempts;opens=%d", opens)), ctxs, rep)
@@ -253,30 +254,32 @@ func c15Outbound(x *mc.Cell, attempts int, full bool) {
 		}
 	}
 	gen(nil)
-	for _, factor := range []float64{1, 5} {
-		for _, p := range pats {
-			cancels := []string{"never", "write"}
-			for i := 0; i < attempts; i++ {
-				cancels = append(cancels, fmt.Sprintf("before-attempt-%d", i), fmt.Sprintf("backoff-%d", i))
-			}
-			for _, cn := range cancels {
-				for _, wr := range []string{"ok", "error"} {
-					for _, rs := range []string{"ok", "error"} {
-						if wr == "ok" && rs == "error" {
-							continue
-						}
-						ks := []string{"req-new"}
-						if cn == "never" && factor == 1 {
-							ks = kindNames()
-						}
-						for _, k := range ks {
-							if x.TimeUp() {
-								x.Cap("c15Outbound: time cap")
-								return
+	for _, ot := range []int{20, 1} {
+		for _, factor := range []float64{1, 5} {
+			for _, p := range pats {
+				cancels := []string{"never", "write"}
+				for i := 0; i < attempts; i++ {
+					cancels = append(cancels, fmt.Sprintf("before-attempt-%d", i), fmt.Sprintf("backoff-%d", i))
+				}
+				for _, cn := range cancels {
+					for _, wr := range []string{"ok", "error"} {
+						for _, rs := range []string{"ok", "error"} {
+							if wr == "ok" && rs == "error" {
+								continue
 							}
-							c := sendCase{attempts, factor, p, cn, wr, rs, k}
-							x.Sample(c.String())
-							c15Send(x, c)
+							ks := []string{"req-new"}
+							if cn == "never" && factor == 1 {
+								ks = kindNames()
+							}
+							for _, k := range ks {
+								if x.TimeUp() {
+									x.Cap("c15Outbound: time cap")
+									return
+								}
+								c := sendCase{ot, attempts, factor, p, cn, wr, rs, k}
+								x.Sample(c.String())
+								c15Send(x, c)
+							}
 						}
 					}
 				}
